@@ -44,6 +44,42 @@ func isLenOf(v ssa.Value) (ssa.Value, bool) {
 	return c.Call.Args[0], true
 }
 
+// windowRoots: the buffers v is a (possibly loop-carried) window of: v itself, and through slice
+// expressions and phis whatever it was re-sliced from.
+func windowRoots(v ssa.Value, out map[ssa.Value]bool, depth int) {
+	if v == nil || out[v] || depth > 6 {
+		return
+	}
+	out[v] = true
+	switch x := v.(type) {
+	case *ssa.Slice:
+		windowRoots(x.X, out, depth+1)
+	case *ssa.Phi:
+		for _, e := range x.Edges {
+			windowRoots(e, out, depth+1)
+		}
+	}
+}
+
+// relatedSlice: a and b are the same buffer or windows of a common buffer (values = values[4:] in a
+// loop over a buffer whose total length was tested once, before the loop).
+func relatedSlice(a, b ssa.Value) bool {
+	if sameSlice(a, b) {
+		return true
+	}
+	ra, rb := map[ssa.Value]bool{}, map[ssa.Value]bool{}
+	windowRoots(a, ra, 0)
+	windowRoots(b, rb, 0)
+	for x := range ra {
+		for y := range rb {
+			if sameSlice(x, y) {
+				return true
+			}
+		}
+	}
+	return false
+}
+
 func sameSlice(a, b ssa.Value) bool {
 	if a == b {
 		return true
@@ -62,7 +98,7 @@ func mentionsLen(v ssa.Value, s ssa.Value, depth int) bool {
 	if depth > 5 || v == nil {
 		return false
 	}
-	if x, ok := isLenOf(v); ok && sameSlice(x, s) {
+	if x, ok := isLenOf(v); ok && relatedSlice(x, s) {
 		return true
 	}
 	switch y := v.(type) {
@@ -220,6 +256,21 @@ func (c *Ctx) sliceObligations(eng *ranges.Engine, funcs map[*ssa.Function]bool,
 							}
 						}
 					}
+					// S-UNRELATED: neither bound is computed from the other and no test relates them
+					if x.Low != nil && x.High != nil {
+						if st2, d := c.unrelatedBounds(eng, fn, x, b); st2 == report.Violated {
+							st.orderSites++
+							construct := addrExpr(x.X) + "[" + addrExpr(x.Low) + " : " + addrExpr(x.High) + "]"
+							if streamSlice(fn, x.X) {
+								add("SLICE-UNRELATED", fn, construct, report.Violated, ins, "the slice expression needs low <= high, but "+d+": no dominating test mentions both, and the high bound comes from the stream — a stream that makes it smaller than the low bound panics with slice bounds out of range")
+							} else {
+								add("SLICE-UNRELATED", fn, construct, report.OutOfScope, ins, "bounds never compared, but the buffer is not stream data")
+							}
+						} else if st2 == report.Discharged && d == "a dominating comparison relates the bounds" {
+							st.orderSites++
+							add("SLICE-UNRELATED", fn, addrExpr(x.X)+"["+addrExpr(x.Low)+" : "+addrExpr(x.High)+"]", report.Discharged, ins, d)
+						}
+					}
 					// S-ORDER: s[a : a+n] needs n >= 0
 					if x.Low != nil && x.High != nil {
 						if bo, ok := x.High.(*ssa.BinOp); ok && bo.Op == token.ADD {
@@ -282,6 +333,109 @@ func (c *Ctx) sliceObligations(eng *ranges.Engine, funcs map[*ssa.Function]bool,
 		}
 	}
 	return st
+}
+
+// leavesOf: the leaf values (parameters, loads, calls, phis) an integer expression is built from.
+func leavesOf(v ssa.Value) []ssa.Value {
+	var out []ssa.Value
+	seen := map[ssa.Value]bool{}
+	var walk func(x ssa.Value, depth int)
+	walk = func(x ssa.Value, depth int) {
+		if x == nil || seen[x] || depth > 12 {
+			return
+		}
+		seen[x] = true
+		switch y := x.(type) {
+		case *ssa.BinOp:
+			walk(y.X, depth+1)
+			walk(y.Y, depth+1)
+		case *ssa.Convert:
+			walk(y.X, depth+1)
+		case *ssa.ChangeType:
+			walk(y.X, depth+1)
+		case *ssa.UnOp:
+			if y.Op == token.MUL {
+				out = append(out, x) // a load: the leaf is the memory cell, not the object it lives in
+				return
+			}
+			walk(y.X, depth+1)
+		case *ssa.Call:
+			if b, ok := y.Call.Value.(*ssa.Builtin); ok && (b.Name() == "len" || b.Name() == "cap" || b.Name() == "min" || b.Name() == "max") {
+				if b.Name() == "min" || b.Name() == "max" {
+					for _, a := range y.Call.Args {
+						walk(a, depth+1)
+					}
+				}
+				return
+			}
+			out = append(out, x)
+		case *ssa.Parameter, *ssa.Phi, *ssa.Extract, *ssa.FreeVar:
+			out = append(out, x)
+		}
+	}
+	walk(v, 0)
+	return out
+}
+
+func hasLeaf(set []ssa.Value, v ssa.Value) bool {
+	for _, s := range set {
+		if s == v || sameBase(s, v) {
+			return true
+		}
+	}
+	return false
+}
+
+// unrelatedBounds: s[a:b] with a stream-derived b needs a <= b. Decided only on the shape where
+// nothing relates the two: b is not computed from a, and no dominating comparison mentions a leaf
+// of a together with a leaf of b.
+func (c *Ctx) unrelatedBounds(eng *ranges.Engine, fn *ssa.Function, x *ssa.Slice, b *ssa.BasicBlock) (report.Status, string) {
+	if _, ok := x.Low.(*ssa.Const); ok {
+		return report.Discharged, "constant low bound"
+	}
+	if _, ok := x.High.(*ssa.Const); ok {
+		return report.Discharged, "constant high bound"
+	}
+	hv := eng.At(fn, x.High, b)
+	lv := eng.At(fn, x.Low, b)
+	if hv.IsBottom() || !hv.Taint {
+		return report.Discharged, "high bound is not stream-derived"
+	}
+	if !lv.IsBottom() && !hv.IsBottom() && lv.Hi() <= hv.Lo() {
+		return report.Discharged, "ranges ordered"
+	}
+	la, lb := leavesOf(x.Low), leavesOf(x.High)
+	for _, a := range la {
+		if hasLeaf(lb, a) {
+			return report.Discharged, "high bound computed from the low bound"
+		}
+	}
+	for cb := b; cb != nil; cb = cb.Idom() {
+		d := cb.Idom()
+		if d == nil {
+			break
+		}
+		cond := ifCond(d)
+		if cond == nil {
+			continue
+		}
+		lc := leavesOf(cond)
+		ra, rb := false, false
+		for _, a := range la {
+			if hasLeaf(lc, a) {
+				ra = true
+			}
+		}
+		for _, bb := range lb {
+			if hasLeaf(lc, bb) {
+				rb = true
+			}
+		}
+		if ra && rb {
+			return report.Discharged, "a dominating comparison relates the bounds"
+		}
+	}
+	return report.Violated, fmt.Sprintf("low %s and high %s are never compared", lv.String(), hv.String())
 }
 
 // lenMinusConst: v is len(s) - k for a constant k > 0 (s the indexed slice itself).
